@@ -541,15 +541,6 @@ OPEN_WITNESSES = [
   </xs:sequence></xs:complexType></xs:element>
 </xs:schema>
 """}, "docs": ["<r><n1>1999</n1></r>"]},
-    {"name": "F5-compound-choice-by-value", "root": "r", "sources": {"main.xsd": XSH + """>
-  <xs:element name="r"><xs:complexType><xs:sequence>
-    <xs:choice maxOccurs="unbounded">
-      <xs:element name="Origin" type="xs:decimal"/>
-      <xs:element name="f" type="xs:unsignedInt"/>
-    </xs:choice>
-  </xs:sequence></xs:complexType></xs:element>
-</xs:schema>
-"""}, "docs": ["<r><f>0</f><Origin>1.5</Origin><f>7</f></r>"]},
     {"name": "F7-root-xsi-type", "root": "doc", "sources": {"main.xsd": XSH + """>
   <xs:element name="doc" type="Base"/>
   <xs:complexType name="Base"><xs:sequence><xs:element name="p" type="xs:string"/></xs:sequence></xs:complexType>
@@ -606,13 +597,12 @@ OPEN_WITNESSES = [
   <xs:element name="holder"><xs:complexType><xs:sequence><xs:element ref="t:Item" maxOccurs="unbounded"/></xs:sequence></xs:complexType></xs:element>
 </xs:schema>
 """}, "docs": ['<root xmlns="urn:t"><holder><Item><v>1</v></Item><special><v>2</v></special></holder></root>']},
-    {"name": "F13-default-on-enum-list-element", "root": "r", "sources": {"main.xsd": XSH + """>
-  <xs:simpleType name="color-type"><xs:restriction base="xs:int"><xs:enumeration value="598"/></xs:restriction></xs:simpleType>
-  <xs:element name="r"><xs:complexType><xs:sequence>
-    <xs:element name="item" type="color-type" minOccurs="0" maxOccurs="unbounded" default="598"/>
-  </xs:sequence></xs:complexType></xs:element>
+    {"name": "F13-text-default-on-binary-union", "root": "r", "sources": {"main.xsd": XSH + """>
+  <xs:simpleType name="u"><xs:union memberTypes="xs:hexBinary xs:date xs:gYear"/></xs:simpleType>
+  <xs:element name="r"><xs:complexType><xs:simpleContent><xs:extension base="u">
+    <xs:attribute name="k" type="xs:int"/></xs:extension></xs:simpleContent></xs:complexType></xs:element>
 </xs:schema>
-"""}, "docs": ["<r><item>598</item></r>"]},
+"""}, "docs": ['<r k="1">2001</r>']},
     {"name": "F14-other-wildcard-parent-namespace", "root": "{http://example.com/ns/a}envelope", "sources": {"main.xsd": XSH + """ xmlns:t1="urn:t" targetNamespace="http://example.com/ns/a" elementFormDefault="qualified">
   <xs:import namespace="urn:t" schemaLocation="part1.xsd"/>
   <xs:element name="envelope" type="t1:ItemType"/>
@@ -705,9 +695,15 @@ SHAPE_PROGRAMS = [
 ]
 
 
+def file_witnesses():
+    """witnesses too large to write inline: minimised-by-selection replays kept under harness/c02_witnesses/"""
+    d = os.path.join(os.path.dirname(os.path.abspath(__file__)), "c02_witnesses")
+    return [json.load(open(os.path.join(d, f))) for f in sorted(os.listdir(d)) if f.endswith(".json")]
+
+
 def witness_programs():
     out = []
-    for w in FIXED_WITNESSES + OPEN_WITNESSES + SHAPE_PROGRAMS:
+    for w in FIXED_WITNESSES + OPEN_WITNESSES + file_witnesses() + SHAPE_PROGRAMS:
         schema = R.read_schema(w["sources"])
         lx = G.compile_schema(w["sources"])
         for d in w["docs"]:
